@@ -130,7 +130,7 @@ void operator delete(void* p) { operator delete[](p); }
 
 // ---- object ledger (open addressing, keyed by address) -------------------------------------------
 struct Rec { const void* addr; unsigned serial; };
-static const unsigned RECN = 1 << 15;
+static const unsigned RECN = 1 << 13;
 static Rec recs[RECN];
 static unsigned recUsed;
 static const void* const TOMB = (const void*)1;
@@ -146,7 +146,19 @@ static Rec* recFind(const void* a)
 }
 static void recInsert(const void* a, unsigned serial)
 {
-  if(++recUsed > RECN / 2) { fprintf(stderr, "object ledger overflow\n"); abort(); }
+  if(++recUsed > RECN / 2)
+  { // drop the tombstones
+    static Rec live[RECN];
+    unsigned n = 0;
+    for(unsigned i = 0; i < RECN; ++i)
+      if(recs[i].addr && recs[i].addr != TOMB) live[n++] = recs[i];
+    memset(recs, 0, sizeof(recs));
+    recUsed = n + 1;
+    if(recUsed > RECN / 2) { fprintf(stderr, "object ledger overflow\n"); abort(); }
+    for(unsigned i = 0; i < n; ++i)
+      for(unsigned j = recSlot(live[i].addr);; j = (j + 1) & (RECN - 1))
+        if(recs[j].addr == 0) { recs[j] = live[i]; break; }
+  }
   for(unsigned i = recSlot(a);; i = (i + 1) & (RECN - 1))
     if(recs[i].addr == 0 || recs[i].addr == TOMB) { recs[i].addr = a; recs[i].serial = serial; return; }
 }
